@@ -338,6 +338,9 @@ def Mul(a, b):
                 return bv(0, a.sort)
             if x.args[0] == 1:
                 return y
+    for x, y in ((a, b), (b, a)):
+        if x.op != 'const' and _cl_small(y):
+            return _map_cl(lambda k: Mul(x, k), y)
     return _bin('bvmul', a, b, lambda x, y, w: x * y, True)
 
 
@@ -566,6 +569,9 @@ def MulOvf(a, b):
     for x, y in ((a, b), (b, a)):
         if x.op == 'const':
             return Ult(bv(_mask(w) // x.args[0], w), y)
+    for x, y in ((a, b), (b, a)):
+        if x.op != 'const' and _cl_small(y):
+            return _map_cl(lambda k: MulOvf(x, k), y)
     wide = Mul(ZExt(a, 2 * w), ZExt(b, 2 * w))
     return Not(Eq(Extract(2 * w - 1, w, wide), bv(0, w)))
 
